@@ -56,6 +56,8 @@ type genLine struct {
 	Steps []step `json:"steps"`
 }
 
+// (the field order of genLine / step is the canonical form that is hashed)
+
 func reads(c string) int {
 	if c == "Bp1" || c == "big" {
 		return 2
@@ -72,12 +74,33 @@ type shape struct {
 	sendS, sendT      bool
 	lastGate, hasGate bool
 	endBeforeAttach   bool // an end closed or failed before the target was attached
+	dataErr           bool // a read returns bytes together with an error (timeout / EOF / connection error), and
+	dataErrLast       bool // ... the script ends with the first Read of that end's direction after the fault was set up
+	paceClose         bool // an end closes / fails while a chunk read from the other end is being paced out
 }
 
 func shapeOf(g *genLine) shape {
 	var s shape
+	faultDir, readsAfter, sent, pacing := "", 0, map[string]bool{}, false
 	for i, st := range g.Steps {
 		s.lastGate = false
+		if st.K == "tn" || st.W == "data" {
+			s.dataErr, faultDir = true, outOf(st.E)
+		}
+		switch {
+		case st.A == "send":
+			sent[outOf(st.E)] = true
+		case st.A == "R" && sent[st.D]:
+			pacing = true
+			if st.D == faultDir {
+				readsAfter++
+				s.dataErrLast = readsAfter == 1 && i == len(g.Steps)-1
+			}
+		case st.A == "W":
+			pacing = false
+		case (st.A == "close" || st.A == "error") && pacing:
+			s.paceClose = true
+		}
 		switch st.A {
 		case "R":
 			s.nR++
@@ -112,7 +135,7 @@ func shapeOf(g *genLine) shape {
 
 // keepPermille: share of the enumerated scripts outside the core set that is driven (seeded choice).
 func keepPermille(env *fw.Env, src string) uint64 {
-	q := map[string]uint64{"gen:S1": 12, "gen:S2": 10, "gen:repl": 30, "gen:S2full": 10}[src]
+	q := map[string]uint64{"gen:S1": 8, "gen:S2": 10, "gen:repl": 30, "gen:S2full": 10, "gen:slow": 1000}[src]
 	if q == 0 {
 		return 1000 // simulation output is driven entirely
 	}
@@ -154,10 +177,23 @@ func expand(env *fw.Env, src string, raw json.RawMessage) []json.RawMessage {
 	// limit class, size class and direction, gate by gate
 	core := !s.ending && !s.fault && !s.replace && !s.timeout && s.attach && s.want > 0 && s.nR == s.want && s.lastGate &&
 		len(g.Steps) <= 8 && src == "gen:S1"
-	if !core && !s.timeout && h%1000 >= keepPermille(env, src) {
+	if g.Lim == "slow" {
+		// 1 KiB/s: only the scripts this class exists for - an end goes away while a 32 KiB chunk of the
+		// other end is being paced out (30 s). A few of them in the quick tier, all in the thorough tier.
+		endsThere := len(g.Steps) > 0 && (g.Steps[len(g.Steps)-1].A == "close" || g.Steps[len(g.Steps)-1].A == "error")
+		if !s.paceClose || (env.Tier != "thorough" && !endsThere) {
+			return nil
+		}
+	} else if s.dataErr && s.dataErrLast && src == "gen:S1" && len(g.Steps) <= 5 {
+		// reads that return bytes together with an error: the minimal scripts (one write, the fault,
+		// the read that takes the bytes) at a higher rate
+		if env.Tier != "thorough" && h%1000 >= 80 {
+			return nil
+		}
+	} else if !core && !s.timeout && h%1000 >= keepPermille(env, src) {
 		return nil
 	}
-	paced := g.Lim == "tiny" || g.Lim == "edge"
+	paced := g.Lim == "tiny" || g.Lim == "edge" || g.Lim == "slow"
 	mk := func(mode string, salt uint64) json.RawMessage {
 		b := beh{Lim: g.Lim, Steps: g.Steps, Mode: mode,
 			Via:   []string{"conn", "stream"}[(h>>8+salt)%2],
@@ -172,7 +208,7 @@ func expand(env *fw.Env, src string, raw json.RawMessage) []json.RawMessage {
 	}
 	out := []json.RawMessage{mk("gated", 0)}
 	// the same script without gates (the copiers race the script), for a share of them
-	if core || (h>>12)%3 == 0 {
+	if core || (h>>12)%3 == 0 || g.Lim == "slow" {
 		out = append(out, mk("free", 1))
 		// Scripts in which an end is already closed / failed when the target attaches make one copier
 		// finish (and Bridge.Close run) while the other goroutine is still starting: a scheduling race
@@ -359,6 +395,7 @@ func main() {
 				gen("gen:S1", "1", all, cls, "TRUE", "FALSE", "TRUE"),
 				gen("gen:S2", "2", all, `{"one", "Bp1"}`, "FALSE", "FALSE", "FALSE"),
 				gen("gen:repl", "1", `{"none", "tiny"}`, `{"one", "Bp1"}`, "FALSE", "TRUE", "FALSE"),
+				gen("gen:slow", "1", `{"slow"}`, `{"B"}`, "FALSE", "FALSE", "FALSE"),
 			}
 			if env.Tier == "thorough" {
 				return append(jobs, gen("gen:S2full", "2", all, cls, "FALSE", "FALSE", "FALSE"), sim(40))
